@@ -455,7 +455,8 @@ PLAN["C19"] = dict(
                 "FromSig / ViaBSig / CidSig equal the special characters present in the From tag / the first-Via branch without "
                 "the z9hG4bK cookie / the Call-ID outside an embedded IPv4 address; the IP-position flag follows the address "
                 "span; CidSLen = ceil(len/4) saturating at 0xff (Call-IDs of ~1020 bytes generated); fillers may look like Via "
-                "values with ;branch= and ;tag=."),
+                "values with ;branch= and ;tag=; one case in six has a first Via without a branch (none, value-less, empty), "
+                "whose branch part later Vias on their own or on the same line must not supply."),
     level_note=_MODEL_NOTE,
     rule=("case = (method, base header list, variant header lists, schedule, capacity); non-trivial = >= 3 fingerprinted "
           "headers and >= 1 variant; distinct by case hash"),
